@@ -5,8 +5,11 @@ import (
 	"fmt"
 	"os"
 	"regexp"
+	"runtime"
 	"sort"
 	"strconv"
+	"strings"
+	"sync"
 	"testing"
 	"testing/synctest"
 	"time"
@@ -110,8 +113,51 @@ func matchKnown(ks []knownFinding, mm []Mismatch, a map[string]any) string {
 
 var knownHits = map[string]int{}
 
+// onFatal is set by TestWalk: record the divergence, write the result file, exit.
+var onFatal func(path []Edge, ms []Mismatch)
+
+// watchdog: a path that takes more than VERIF_WATCHDOG real seconds (steps take microseconds) means
+// some goroutine is stuck outside the reach of the virtual clock (a leaked lock, a busy loop):
+// dump all stacks, flush what is known and exit.  The check driver turns that into a verdict.
+var (
+	wdMu      sync.Mutex
+	wdPath    []Edge
+	wdStarted time.Time
+	wdFlush   func(hang string)
+)
+
+func startWatchdog() {
+	limit := time.Duration(envInt("VERIF_WATCHDOG", 30)) * time.Second
+	go func() {
+		for {
+			time.Sleep(time.Second)
+			wdMu.Lock()
+			stuck := wdPath != nil && time.Since(wdStarted) > limit
+			path := wdPath
+			wdMu.Unlock()
+			if stuck {
+				buf := make([]byte, 1<<20)
+				n := runtime.Stack(buf, true)
+				fmt.Printf("WATCHDOG: a replay step did not finish within %v of real time\nPATH: %s\n%s\n", limit, canon(actionsOf(path)), buf[:n])
+				if wdFlush != nil {
+					wdFlush(string(buf[:n]))
+				}
+				os.Exit(3)
+			}
+		}
+	}()
+}
+
 func walkPathK(t *testing.T, g *Graph, seed int64, path []Edge, known []knownFinding) (int, []Mismatch, any, any, int) {
 	t.Helper()
+	wdMu.Lock()
+	wdPath, wdStarted = path, time.Now()
+	wdMu.Unlock()
+	defer func() {
+		wdMu.Lock()
+		wdPath = nil
+		wdMu.Unlock()
+	}()
 	step := -1
 	var mm []Mismatch
 	var exp, got any
@@ -140,6 +186,13 @@ func walkPathK(t *testing.T, g *Graph, seed int64, path []Edge, known []knownFin
 					continue
 				}
 				step, mm, exp, got = i, ms, e.O, obs
+				for _, m := range ms {
+					if m.Kind == "locks" && onFatal != nil {
+						// a lock is still held: tearing the system down would block for ever on it, and
+						// the virtual clock cannot see a mutex wait; report and leave the process now
+						onFatal(path[:i+1], ms)
+					}
+				}
 
 				return
 			}
@@ -183,6 +236,7 @@ func TestWalk(t *testing.T) {
 	}
 	res.ClassesAll = len(all)
 	known := loadKnown(prop)
+	startWatchdog()
 	want := g.Want(seed, frac, int(envInt("VERIF_PERCLASS", 3)))
 	if os.Getenv("VERIF_MODE") == "traces" {
 		// the file holds behaviours printed by `tlc -simulate`: consecutive edges chain; a new
@@ -195,6 +249,61 @@ func TestWalk(t *testing.T) {
 	bad := map[int]bool{} // edges on which the code diverged: later rounds route around them
 	maxViol := int(envInt("VERIF_MAXVIOL", 5))
 	outDir := os.Getenv("VERIF_REPLAYDIR")
+	writeOut := func() {
+		res.Known = knownHits
+		res.EdgesDist = len(walked)
+		res.WallS = time.Since(start).Seconds()
+		if out := os.Getenv("VERIF_OUT"); out != "" {
+			b, _ := json.MarshalIndent(res, "", " ")
+			_ = os.WriteFile(out, b, 0o644)
+		}
+	}
+	record := func(es []Edge, mm []Mismatch, exp, got any) bool {
+		step := len(es) - 1
+		v := Violation{Path: actionsOf(es), Step: step, Mismatch: mm, Expected: exp, Observed: fmtObs(got)}
+		owned := false
+		for _, m := range mm {
+			if m.Kind == "harness" || OwnedBy(m, es[step].A, prop) {
+				owned = true
+			}
+		}
+		if !owned {
+			if len(res.Abandoned) < 20 {
+				res.Abandoned = append(res.Abandoned, v)
+			}
+
+			return false
+		}
+		if outDir != "" {
+			_ = os.MkdirAll(outDir, 0o755)
+			v.Replay = fmt.Sprintf("%s/%s-%s-seed%d-%d.json", outDir, prop, res.Family, seed, len(res.Violations))
+			b, _ := json.MarshalIndent(map[string]any{
+				"engine": "walk", "family": res.Family, "prop": prop, "seed": seed, "meta": g.Meta,
+				"path": es, "mismatch": mm,
+			}, "", " ")
+			_ = os.WriteFile(v.Replay, b, 0o644)
+		}
+		res.Violations = append(res.Violations, v)
+
+		return true
+	}
+	onFatal = func(es []Edge, mm []Mismatch) {
+		record(es, mm, nil, nil)
+		writeOut()
+		fmt.Printf("FATAL divergence (a lock is held at a quiescent point): %v\n", mm)
+		os.Exit(4) // (the testing package forbids exit status 0 from inside a test)
+	}
+	wdFlush = func(stacks string) {
+		wdMu.Lock()
+		p := wdPath
+		wdMu.Unlock()
+		kind := "hang"
+		if strings.Contains(stacks, "sync.Mutex.Lock") || strings.Contains(stacks, "sync.RWMutex") {
+			kind = "hang.lock"
+		}
+		record(p, []Mismatch{{kind, "a replay step did not finish in real time: goroutines are stuck outside the virtual clock (see the WATCHDOG dump)"}}, nil, nil)
+		writeOut()
+	}
 	pi := 0
 rounds:
 	for round := 0; round < 7; round++ {
@@ -239,50 +348,13 @@ rounds:
 				continue
 			}
 			bad[p[step]] = true
-			if os.Getenv("VERIF_MODE") == "traces" && step+1 < len(p) {
-				// the rest of the behaviour is still worth checking: the spec state after the
-				// diverging step is known, but the real server has left it, so start it afresh
-				// only when the remainder begins in an initial state -- otherwise drop it
-				_ = step
-			}
-			v := Violation{Path: actionsOf(es[:step+1]), Step: step, Mismatch: mm, Expected: exp, Observed: fmtObs(got)}
-			owned := false
-			for _, m := range mm {
-				if m.Kind == "harness" || OwnedBy(m, es[step].A, prop) {
-					owned = true
-				}
-			}
-			if !owned {
-				if len(res.Abandoned) < 20 {
-					res.Abandoned = append(res.Abandoned, v)
-				}
-
-				continue
-			}
-			if outDir != "" {
-				_ = os.MkdirAll(outDir, 0o755)
-				v.Replay = fmt.Sprintf("%s/%s-%s-seed%d-%d.json", outDir, prop, res.Family, seed, len(res.Violations))
-				b, _ := json.MarshalIndent(map[string]any{
-					"engine": "walk", "family": res.Family, "prop": prop, "seed": seed, "meta": g.Meta,
-					"path": es[:step+1], "mismatch": mm,
-				}, "", " ")
-				_ = os.WriteFile(v.Replay, b, 0o644)
-			}
-			res.Violations = append(res.Violations, v)
+			record(es[:step+1], mm, exp, got)
 			if len(res.Violations) >= maxViol {
 				break rounds
 			}
 		}
 	}
-	res.Known = knownHits
-	res.EdgesDist = len(walked)
-	res.WallS = time.Since(start).Seconds()
-	if out := os.Getenv("VERIF_OUT"); out != "" {
-		b, _ := json.MarshalIndent(res, "", " ")
-		if err := os.WriteFile(out, b, 0o644); err != nil {
-			t.Fatal(err)
-		}
-	}
+	writeOut()
 	t.Logf("family=%s prop=%s seed=%d variant=%s nodes=%d edges=%d distinct-walked=%d paths=%d steps=%d classes=%d/%d violations=%d abandoned=%d",
 		res.Family, prop, seed, res.Variant, g.Nodes, len(g.Edges), res.EdgesDist, res.Paths, res.Steps,
 		len(res.Classes), res.ClassesAll, len(res.Violations), len(res.Abandoned))
